@@ -176,16 +176,21 @@ def run_shard(sh, rec):
                             if onames and sk == "random":
                                 import copy as _copy
 
-                                k0 = onames[0]
-                                hist = util.sentinel_like(rng, (3,) + case.kw[k0].shape, case.kw[k0].dtype).copy()
+                                # ... and so is every other array argument (snapshot j of its own stack): inputs differ from call to call
+                                stacks = {}
+                                for k, role in case.roles.items():
+                                    a = case.kw[k]
+                                    if not isinstance(a, np.ndarray) or a.dtype.kind == "c":
+                                        continue
+                                    if role == "out":
+                                        stacks[k] = util.sentinel_like(rng, (3,) + a.shape, a.dtype).copy()
+                                    else:
+                                        stacks[k] = np.stack([a] * 3)
+                                        if role in ("in", "inout") and k not in ("char_field", "level_set_field"):
+                                            stacks[k][...] = rng.standard_normal(stacks[k].shape).astype(a.dtype)
                                 for j in range(3):
-                                    for k, role in case.roles.items():
-                                        a = case.kw[k]
-                                        if role in ("in", "inout") and k not in ("char_field", "level_set_field") and a.dtype.kind != "c":
-                                            a[...] = rng.standard_normal(a.shape).astype(a.dtype)
                                     c2 = _copy.copy(case)
-                                    c2.kw = dict(case.kw)
-                                    c2.kw[k0] = hist[j]
+                                    c2.kw = {k: (stacks[k][j] if k in stacks else v) for k, v in case.kw.items()}
                                     audit.audit(vname, c2, A, rec, rng, real_t, dict(meta, call=f"history[{j}]"))
                                     del c2
                                     rec.count("calls_with_temporary_output_views")
